@@ -223,6 +223,16 @@ func genBatch(t *rapid.T, s *schema, o *WorldOpts) []Item {
 		rep.Tmpl = append(rep.Tmpl, genDoc(t, s))
 	}
 	items = append(items, Item{Rep: rep})
+	if rapid.IntRange(0, 2).Draw(t, "tworeps") == 0 {
+		// a second block of differently shaped documents, so that consecutive
+		// chunks / blocks of the segment differ in size and content
+		rep2 := &Rep{N: rapid.SampledFrom([]int{5, 100, 127, 129, 900, 1024, 1030}).Draw(t, "n2")}
+		nt2 := rapid.IntRange(1, 3).Draw(t, "ntmpl2")
+		for i := 0; i < nt2; i++ {
+			rep2.Tmpl = append(rep2.Tmpl, genDoc(t, s))
+		}
+		items = append(items, Item{Rep: rep2})
+	}
 	explicit(0, 3, "ntail")
 	return items
 }
